@@ -7,8 +7,9 @@ import sys
 import time
 
 ROOT = os.path.dirname(os.path.dirname(os.path.abspath(__file__)))
-EVIDENCE = os.path.join(ROOT, "evidence")
-REPLAY = os.path.join(ROOT, "replay")
+# VERIF_OUT redirects evidence and replay files (tools/seedrun.sh: runs against a seeded worktree must not overwrite the evidence of the real tree)
+EVIDENCE = os.path.join(os.environ.get("VERIF_OUT", ROOT), "evidence")
+REPLAY = os.path.join(os.environ.get("VERIF_OUT", ROOT), "replay")
 FINDINGS = os.path.join(ROOT, "known_findings.json")
 
 
